@@ -403,8 +403,8 @@ CF2_PROOF = r'''proof {
                 assert(self@.dom() =~= vx_m1@.dom());
             }'''
 
-CF3_PRE = r'''let ghost vx_m2 = *self;
-        proof {
+CF3_PRE = r'''proof {
+            vx_m2 = *self;
             assert(self@.dom() =~= vx_m1@.dom());
             assert forall|t: TypeId| #[trigger] self.type_id_lookup@.dom().contains(t) implies
                 self@.dom().contains(self.type_id_lookup@[t]) && vx_key_bits(self.type_id_lookup@[t]) == vx_type_bits(t) by {
@@ -433,17 +433,17 @@ CF_END = r'''proof {
             assert(self@.dom() =~= vx_m1@.dom());
             // tables after the clearing pass
             assert forall|k2: archetype::IdentifierRef<R>| #[trigger] self@.dom().contains(k2) implies
-                self@[k2].wf() && self@[k2].key() == k2 && (if cloned_archetype_identifiers@.contains(k2) { self@[k2] == vx_m1@[k2] } else { self@[k2].length == 0 }) by {
-                assert(vx_keys2@.contains(k2));
-                let j = choose|j: int| 0 <= j < vx_keys2@.len() && vx_keys2@[j] == k2;
-                assert(self@[vx_keys2@[j]].wf());
+                self@[k2].wf() && self@[k2].key() == k2 && (if vx_vals.contains(k2) { self@[k2] == vx_m1@[k2] } else { self@[k2].length == 0 }) by {
+                assert(vx_k2.contains(k2));
+                let j = choose|j: int| 0 <= j < vx_k2.len() && vx_k2[j] == k2;
+                assert(self@[vx_k2[j]].wf());
             }
             assert forall|k: archetype::IdentifierRef<R>| source@.dom().contains(k) implies
                 #[trigger] map.dom().contains(k) && self@.dom().contains(map[k]) && vx_table_copy(self@[map[k]], source@[k], map[k]) by {
                 assert(vx_keys1@.contains(k));
                 let j = choose|j: int| 0 <= j < vx_keys1@.len() && vx_keys1@[j] == k;
                 assert(map.dom().contains(vx_keys1@[j]));
-                assert(cloned_archetype_identifiers@.contains(map[k]));
+                assert(vx_vals.contains(map[k]));
                 assert(vx_m1@.dom().contains(map[k]));
             }
             assert forall|k1: archetype::IdentifierRef<R>, k2: archetype::IdentifierRef<R>|
@@ -455,7 +455,7 @@ CF_END = r'''proof {
             }
             assert forall|k2: archetype::IdentifierRef<R>| #[trigger] self@.dom().contains(k2) implies
                 self@[k2].wf() && self@[k2].key() == k2 && ((exists|k: archetype::IdentifierRef<R>| source@.dom().contains(k) && map[k] == k2) || self@[k2].length == 0) by {
-                if cloned_archetype_identifiers@.contains(k2) {
+                if vx_vals.contains(k2) {
                     let k = choose|k: archetype::IdentifierRef<R>| map.dom().contains(k) && map[k] == k2;
                     let j = choose|j: int| 0 <= j < vx_n1 && vx_keys1@[j] == k;
                     assert(vx_keys1@.contains(k));
@@ -610,11 +610,11 @@ def build():
                ], decreases="vx_n3 - vx_i3"),
            ],
            hints=[
-               Hint("start", "let ghost vx_a0 = *self; proof { source.lemma_single_table(); }"),
+               Hint("start", "let ghost vx_a0 = *self; let ghost mut vx_m1 = *self; let ghost mut vx_m2 = *self; let ghost mut vx_vals = ISet::<archetype::IdentifierRef<R>>::empty(); let ghost mut vx_k2 = Seq::<archetype::IdentifierRef<R>>::empty(); proof { source.lemma_single_table(); }"),
                Hint("after", "let ghost vx_s1 = *self; let ghost vx_map1 = identifier_map@; proof { self.lemma_single_table(); assert(source@.dom().contains(vx_keys1@[vx_i1 as int])) by { assert(vx_keys1@.contains(vx_keys1@[vx_i1 as int])); } }",
                     anchor=r"let source_archetype = source\.raw_archetypes\.vx_nth\(vx_i1, vx_keys1\)"),
                Hint("before", CF1_PROOF, anchor=r"vx_i1 \+= 1;"),
-               Hint("before", "let ghost vx_m1 = *self; proof { assert forall|j: int| 0 <= j < vx_n2 implies (#[trigger] self@[vx_keys2@[j]]) == vx_m1@[vx_keys2@[j]] by { } }", anchor=r"while vx_i2 < vx_n2"),
+               Hint("before", "proof { vx_m1 = *self; vx_vals = cloned_archetype_identifiers@; vx_k2 = vx_keys2@; assert forall|j: int| 0 <= j < vx_n2 implies (#[trigger] self@[vx_keys2@[j]]) == vx_m1@[vx_keys2@[j]] by { } }", anchor=r"while vx_i2 < vx_n2"),
                Hint("before", "let ghost vx_s2 = *self; proof { assert(vx_m1@.dom().contains(vx_keys2@[vx_i2 as int])) by { assert(vx_keys2@.contains(vx_keys2@[vx_i2 as int])); } }",
                     anchor=r"let archetype = self\.raw_archetypes\.vx_nth_mut\(vx_i2, vx_keys2\)"),
                Hint("before", CF2_PROOF, anchor=r"vx_i2 \+= 1;"),
